@@ -190,9 +190,6 @@ func caseKinds(fd *ast.FuncDecl) (out []string) {
 	if sw == nil {
 		return []string{"<unrecognised>"}
 	}
-	if tag := anyExprText(sw.Tag); tag != "value.Kind()" {
-		return []string{"<unrecognised switch on " + tag + ">"}
-	}
 	for _, c := range sw.Body.List {
 		cc := c.(*ast.CaseClause)
 		for _, e := range cc.List {
@@ -294,7 +291,28 @@ func main() {
 		emitTable("go_not_present", append(rows, [2]string{"default", def}))
 	})
 	section(unrec2("go_equality_fn"), func() {
-		rows, def, _ := switchTable(funcDecl(evalF, "", "primitiveEqualityFn"))
+		// the function from a reflect.Kind to a comparison function, whatever it is called and whichever file it is in
+		var cand []*ast.FuncDecl
+		files, _ := filepath.Glob(filepath.Join(root, "*.go"))
+		sort.Strings(files)
+		for _, fn := range files {
+			if strings.HasSuffix(fn, "_test.go") || strings.HasSuffix(fn, "_hooks.go") {
+				continue
+			}
+			for _, d := range parse(fn).Decls {
+				fd, ok := d.(*ast.FuncDecl)
+				if !ok || fd.Recv != nil || fd.Type.Params == nil || fd.Type.Results == nil || len(fd.Type.Params.List) != 1 || len(fd.Type.Results.List) != 1 {
+					continue
+				}
+				if _, isFn := fd.Type.Results.List[0].Type.(*ast.FuncType); isFn && anyExprText(fd.Type.Params.List[0].Type) == "reflect.Kind" {
+					cand = append(cand, fd)
+				}
+			}
+		}
+		if len(cand) != 1 {
+			die("%d functions from reflect.Kind to a function value", len(cand))
+		}
+		rows, def, _ := switchTable(cand[0])
 		emitTable("go_equality_fn", append(rows, [2]string{"default", def}))
 	})
 	section(unrec2("go_coerce_of_kind"), func() {
@@ -343,14 +361,47 @@ func main() {
 
 	})
 	section(unrec2("go_default_options"), func() {
-		// options.go: the composite literal returned by getDefaultOptions
-		fd := funcDecl(optF, "", "getDefaultOptions")
-		ret := fd.Body.List[len(fd.Body.List)-1].(*ast.ReturnStmt).Results[0].(*ast.CompositeLit)
-		var orows [][2]string
-		for _, e := range ret.Elts {
-			kv := e.(*ast.KeyValueExpr)
-			orows = append(orows, [2]string{exprText(kv.Key), exprText(kv.Value)})
+		// options.go: the composite literal of type `options` the defaults are built from (wherever it stands: in
+		// getDefaultOptions or inlined into getOpts); identifiers that name string/int constants of the file are resolved
+		consts := map[string]string{}
+		for _, d := range optF.Decls {
+			if gd, ok := d.(*ast.GenDecl); ok && gd.Tok == token.CONST {
+				for _, sp := range gd.Specs {
+					vs := sp.(*ast.ValueSpec)
+					for i, n := range vs.Names {
+						if i < len(vs.Values) {
+							if bl, ok := vs.Values[i].(*ast.BasicLit); ok {
+								consts[n.Name] = exprText(bl)
+							}
+						}
+					}
+				}
+			}
 		}
+		var lit *ast.CompositeLit
+		ast.Inspect(optF, func(n ast.Node) bool {
+			if cl, ok := n.(*ast.CompositeLit); ok && lit == nil {
+				if id, ok := cl.Type.(*ast.Ident); ok && id.Name == "options" {
+					lit = cl
+				}
+			}
+			return true
+		})
+		if lit == nil {
+			die("options.go: no composite literal of type options")
+		}
+		var orows [][2]string
+		for _, e := range lit.Elts {
+			kv := e.(*ast.KeyValueExpr)
+			v := exprText(kv.Value)
+			if id, ok := kv.Value.(*ast.Ident); ok {
+				if c, ok := consts[id.Name]; ok {
+					v = c
+				}
+			}
+			orows = append(orows, [2]string{exprText(kv.Key), v})
+		}
+		sort.Slice(orows, func(i, j int) bool { return orows[i][0] < orows[j][0] })
 		emitTable("go_default_options", orows)
 
 	})
